@@ -318,7 +318,7 @@ def product_docs(shard, of, sample, seed):
             combos = [(c, s) for c in TD.CONTEXTS for s in TD.SPELLINGS]
             r.shuffle(combos)
             for c, s in combos:
-                keep = must or r.random() < sample
+                keep = must or r.random() < sample or (c.startswith('after_handle_doc') and s == 'bangbang' and kind in ('scalar_arg', 'seq', 'map'))
                 rr = TD.render(tag, kind, c, s) if keep else None
                 if rr is None:
                     continue
